@@ -127,7 +127,9 @@ def py_dict_pairs(pairs):
 
 def wire_arg(cm, arg):
   kind = cm[0] if isinstance(cm, list) else cm
-  if kind in ('flag', 'perm', 'timeit', 'dyn', 'dyng'):
+  if kind == 'timeit':
+    return V_atom(arg % 10)          # 10 + i = the i-th REUSED TimeIt object of the thread: the same model (see design/C17.md)
+  if kind in ('flag', 'perm', 'dyn', 'dyng'):
     return V_atom(arg)
   if kind in ('str', 'repr', 'view', 'ctx'):
     return V_dict(py_dict_pairs([(k, v) for k, v in arg]))
@@ -239,6 +241,12 @@ class Real:
     if k == 'wrappers':
       return P['class_wrapper'].apply_wrappers([P['classes'][8 + i] for i in arg])
     if k == 'timeit':
+      if arg >= 10:
+        # one TimeIt object per (thread, name), entered again and again (never while it is active: see linearize)
+        pool_ = self.timers.__dict__.setdefault('pool', {})
+        if arg not in pool_:
+          pool_[arg] = P['timing'].timeit(TIMER_NAMES[arg - 10])
+        return pool_[arg]
       return P['timing'].timeit(TIMER_NAMES[arg])
     if k == 'dyn':
       return P['dynamic_evaluation'].dynamic_evaluate(P['fns'][arg or 0], per_thread=True)
@@ -249,6 +257,7 @@ class Real:
     raise ValueError(cm)
 
   last_kw = None
+  timers = threading.local()
 
   # -- conversion of real values --------------------------------------------------------------------
   def kw_pairs(self, kind, d):
@@ -637,7 +646,9 @@ def deep_merge_pairs(old, new):
 
 def expected_inside(kind, arg, before, stack):
   """The documented nesting rule: what the manager's getter must return right after entering."""
-  if kind in ('flag', 'timeit', 'dyn'):
+  if kind == 'timeit':
+    return arg % 10
+  if kind in ('flag', 'dyn'):
     return arg                                            # innermost wins
   if kind == 'dyng':
     mine = [e[1] for e in stack if e[0] == 'dyn']           # a per-thread function of this thread takes precedence
@@ -892,7 +903,7 @@ def gen_arg(rng, kind):
       out.append([s, d])
     return out
   if kind == 'wrappers': return rng.sample(range(3), rng.randint(1, 3))
-  if kind == 'timeit': return rng.randrange(3)
+  if kind == 'timeit': return rng.randrange(3) + (10 if rng.random() < 0.5 else 0)
   if kind in ('dyn', 'dyng'): return rng.choice([None, 1, 2, 3])
   if kind == 'loadtypes': return [rng.randrange(3) for _ in range(rng.randint(0, 3))]
   raise ValueError(kind)
@@ -906,7 +917,7 @@ SWEEP_POOL = dict(
           [[0, {'d': [[1, False], [2, {'d': [[3, 2], [0, None]]}]]}]]],
     ctx=[[], [[0, 1]], [[0, 2], [1, None]], [[1, {'d': [[0, True]]}]], [[1, {'shared': 0}]]],
     contextual=[[[0, 1, False, False]], [[0, 2, True, False]], [[0, 3, False, True], [1, 4, True, True]]],
-    detour=[[[0, 1]], [[0, 2], [1, 0]], [[2, 0], [0, 3]]], wrappers=[[0], [1, 2]], timeit=[0, 1],
+    detour=[[[0, 1]], [[0, 2], [1, 0]], [[2, 0], [0, 3]]], wrappers=[[0], [1, 2]], timeit=[0, 1, 10, 11],
     dyn=[None, 1, 2], dyng=[None, 1, 2], loadtypes=[[], [0], [2, 1]])
 RELATED = dict(dyn=['dyn', 'dyng'], dyng=['dyng', 'dyn'], detour=['detour', 'wrappers'], wrappers=['wrappers', 'detour'])
 
@@ -914,6 +925,20 @@ def all_cms(nflags):
   return [['flag', i] for i in range(nflags)] + CMS[1:]
 def getter_for(cm):
   return ['flag', cm[1]] if isinstance(cm, list) else GETTER_OF[cm]
+
+def linearize(p, active=frozenset()):
+  """A reused TimeIt object is never entered while it is active (context manager objects are not re-entrant): the inner use becomes a fresh timer."""
+  t = p[0]
+  if t == 'seq': return ['seq', linearize(p[1], active), linearize(p[2], active)]
+  if t == 'catch': return ['catch', linearize(p[1], active)]
+  if t == 'scope':
+    cm, arg = p[1], p[2]
+    if cm == 'timeit' and arg >= 10:
+      if arg in active:
+        return ['scope', cm, arg - 10, linearize(p[3], active)]
+      return ['scope', cm, arg, linearize(p[3], active | {arg})]
+    return ['scope', cm, arg, linearize(p[3], active)]
+  return p
 
 def sweep_cases(nflags):
   """every manager x argument x outer state {unset, each value of each related manager} x {normal, exceptional} exit"""
@@ -938,7 +963,18 @@ def sweep_cases(nflags):
             if sib:
               core = seq(['scope', sib[0], sib[1], ['skip']], core)
             p = seq(['scope', outer[0], outer[1], core], g) if outer else core
-            out.append(p)
+            out.append(linearize(p))
+  # a re-used manager OBJECT (class based: pg.timeit returns a TimeIt that can be entered again): first use under one parent, second use
+  # under another / under none, each left normally or by exception
+  g = ['obs', 'timeit']
+  def use(exc):
+    return ['catch', ['scope', 'timeit', 10, seq(g, ['raise'])]] if exc else ['scope', 'timeit', 10, g]
+  for e1 in (False, True):
+    for e2 in (False, True):
+      out.append(seq(['scope', 'timeit', 0, seq(use(e1), g)], g, use(e2), g))
+      out.append(seq(use(e1), g, ['scope', 'timeit', 1, seq(use(e2), g)], g))
+      out.append(seq(['scope', 'timeit', 0, seq(use(e1), g, ['scope', 'timeit', 11, seq(use(e2), g)], g)], g))
+      out.append(seq(use(e1), g, use(e2), g))
   return out
 
 def gen_block(rng, depth, cms, enclosing, p_raise):
@@ -980,7 +1016,7 @@ def gen_prog(rng, cms, max_depth=6):
     if rng.random() < 0.25:
       node = ['catch', node]
     return seq(node, ['obs', getter_for(cm)])
-  return spine(depth, [])
+  return linearize(spine(depth, []))
 
 def shrink(prog, fails):
   """Greedy delta-debugging on the program tree: replace a node by a child / drop a statement while `fails` still holds."""
